@@ -39,13 +39,13 @@ func ruleC19Structure(c *core.Ctx) {
 			}
 			if core.IsNil(info, rs.Results[1]) {
 				o.At(fn.Site(rs, "success"))
-				o.Require(c.Prog.Src(rs.Results[0]) == "&sourceAwareReader{inner:out,src:src}", "DecodeStream returns %s instead of the source-aware wrapper of the chain", c.Prog.Src(rs.Results[0]))
+				o.Shape(c.Prog.Src(rs.Results[0]) == "&sourceAwareReader{inner:out,src:src}", "DecodeStream returns %s instead of the source-aware wrapper of the chain", c.Prog.Src(rs.Results[0]))
 				continue
 			}
 			// error returns after the latch exists must promote
 			if g.PathExists(defVertices(g, src)[0], r, nil) {
 				o.At(fn.Site(rs, "error during construction"))
-				o.Require(c.Prog.Src(rs.Results[1]) == "src.promote(err)", "an error during chain construction is returned as %s; a source failure seen by a filter header read would be reported as malformed", c.Prog.Src(rs.Results[1]))
+				o.Shape(c.Prog.Src(rs.Results[1]) == "src.promote(err)", "an error during chain construction is returned as %s; a source failure seen by a filter header read would be reported as malformed", c.Prog.Src(rs.Results[1]))
 			}
 		}
 	})
@@ -53,16 +53,16 @@ func ruleC19Structure(c *core.Ctx) {
 		rd := c.Prog.Func("pdf", "(*sourceErrChecker).Read")
 		src := c.Prog.Src(rd.Decl.Body)
 		o.At(rd.Site(rd.Decl, "latch"))
-		o.Require(strings.Contains(src, "n,err:=s.r.Read(p)") && strings.HasSuffix(src, "returnn,err}"), "the latch must return the raw reader's result unchanged")
-		o.Require(strings.Contains(src, "iferr!=nil&&!errors.Is(err,io.EOF)&&s.srcErr==nil{s.srcErr=err}"), "the latch must record the first non-EOF error: %s", src)
+		o.Shape(strings.Contains(src, "n,err:=s.r.Read(p)") && strings.HasSuffix(src, "returnn,err}"), "the latch must return the raw reader's result unchanged")
+		o.Shape(strings.Contains(src, "iferr!=nil&&!errors.Is(err,io.EOF)&&s.srcErr==nil{s.srcErr=err}"), "the latch must record the first non-EOF error: %s", src)
 		pr := c.Prog.Func("pdf", "(*sourceErrChecker).promote")
 		o.At(pr.Site(pr.Decl, "promote"))
-		o.Require(c.Prog.Src(pr.Decl.Body) == "{ifs.srcErr!=nil{returns.srcErr}returnerr}", "promote must prefer the latched error: %s", c.Prog.Src(pr.Decl.Body))
+		o.Shape(c.Prog.Src(pr.Decl.Body) == "{ifs.srcErr!=nil{returns.srcErr}returnerr}", "promote must prefer the latched error: %s", c.Prog.Src(pr.Decl.Body))
 		sa := c.Prog.Func("pdf", "(*sourceAwareReader).Read")
 		o.At(sa.Site(sa.Decl, "source-aware reader"))
-		o.Require(c.Prog.Src(sa.Decl.Body) == "{n,err:=s.inner.Read(p)iferr!=nil&&s.src.srcErr!=nil{err=s.src.srcErr}returnn,err}", "the source-aware reader must substitute the latched error whenever the chain reports an error: %s", c.Prog.Src(sa.Decl.Body))
+		o.Shape(c.Prog.Src(sa.Decl.Body) == "{n,err:=s.inner.Read(p)iferr!=nil&&s.src.srcErr!=nil{err=s.src.srcErr}returnn,err}", "the source-aware reader must substitute the latched error whenever the chain reports an error: %s", c.Prog.Src(sa.Decl.Body))
 		cl := c.Prog.Func("pdf", "(*sourceAwareReader).Close")
-		o.Require(c.Prog.Src(cl.Decl.Body) == "{returns.inner.Close()}", "Close must be forwarded to the chain")
+		o.Shape(c.Prog.Src(cl.Decl.Body) == "{returns.inner.Close()}", "Close must be forwarded to the chain")
 	})
 	c.Check("C19-R3", "pdf.asMalformedFilter~filterContentReader", "the two relabelling points wrap exactly the errors that are neither malformed nor end of input", func(o *core.Ob) {
 		am := c.Prog.Func("pdf", "asMalformedFilter")
@@ -81,7 +81,7 @@ func ruleC19Structure(c *core.Ctx) {
 		o.At(fn.Site(fn.Decl, ""))
 		// first statement: if s.err != nil { return s.err }
 		first, ok := fn.Decl.Body.List[0].(*ast.IfStmt)
-		o.Require(ok && c.Prog.Src(first) == "ifs.err!=nil{returns.err}", "refill must start by returning a latched error")
+		o.Shape(ok && c.Prog.Src(first) == "ifs.err!=nil{returns.err}", "refill must start by returning a latched error")
 		// the store s.err = err is on the edge where err is non-nil and not EOF
 		stored := false
 		for _, v := range g.Vs {
